@@ -13,6 +13,7 @@ CONSTANTS
   Multis = {FALSE}
   Muts = {0, 1, 2, 3}
   RouteIds = {1}
+  Reconfs = {0}
   Rounds = 1
 INVARIANT TypeOK
 INVARIANT H_sane
